@@ -151,6 +151,58 @@ def run(chk):
         if case % 12 == 0:
             chk.add_sample({"term": str(term)[:300]})
 
+    # structured fractions: a numerator that is NOT symmetric under a
+    # permutation of contracted indices which changes the sign of the
+    # remainder but leaves the denominator unchanged (permute_num must then
+    # ANTIsymmetrise the numerator), and similar corner cases
+    from adcgen.sympy_objects import Amplitude
+    from adcgen.indices import get_symbols
+    i, j, k, a, b, c = get_symbols("ijkabc")
+
+    def E(s_):
+        return NonSymmetricTensor(tn.orb_energy, (s_,))
+    V_ = AntiSymmetricTensor(tn.eri, (i, j), (a, b), 1)
+    D2 = E(a) + E(b) - E(i) - E(j)
+    h_ = AntiSymmetricTensor("Wq", (a,), (b,), 0)
+    structured = [
+        (E(i) * V_ / D2, [a, b]),
+        (-E(i) * V_ / D2 ** 2, [a, b]),
+        (E(a) * V_ * h_ / D2, []),
+        ((E(i) - 2 * E(j)) * V_ * Amplitude("t1", (a, b), (i, j)) / D2, []),
+        ((E(a) - E(i)) * V_ * h_ / (D2 * (E(a) - E(i))), [j]),
+        (E(i) * V_ * AntiSymmetricTensor(tn.eri, (i, k), (a, b), 1) / D2, [k]),
+        (-(E(a) + 2 * E(b)) * V_ / D2, [i, j]),
+    ]
+    for term, tsyms in structured:
+        pre = Expr(term, real=True, target_idx=tsyms)
+        eo, exc = guarded(EriOrbenergy, pre.terms[0])
+        chk.count("fraction_terms")
+        if exc:
+            continue
+        for name, fn in (("expr", lambda: eo.expr),
+                         ("permute_num", lambda: eo.copy().permute_num().expr),
+                         ("canonicalize_sign",
+                          lambda: eo.copy().canonicalize_sign().expr),
+                         ("permute_num+symbolic",
+                          lambda: build.expand_mul(Expr(
+                              eo.copy().permute_num().expr.sympy,
+                              **pre.assumptions)).use_symbolic_denominators()),
+                         ("cancel_orb_energy_frac",
+                          lambda: eo.copy().cancel_orb_energy_frac())):
+            post, exc = guarded(fn)
+            chk.count("operations")
+            what = f"EriOrbenergy({term}).{name}"
+            if exc:
+                if exc["type"] == "RuntimeError" and (
+                        "sign" in exc["msg"] or "Ambiguous" in exc["msg"]):
+                    chk.count("refused")
+                    continue
+                chk.report_direct(f"frac:{name}:exception", f"{what} raised "
+                                  f"{exc['type']}: {exc['msg']}", exc)
+                continue
+            emit(chk, pre, build.expand_mul(Expr(post.sympy, **pre.assumptions)),
+                 f"frac:structured:{name}", what, tsyms)
+
     # grouping by equal remainder / denominator: sums of fraction terms
     for case in range(40 if quick else 400):
         g.new_expression(True)
